@@ -4,7 +4,7 @@
 From Coq Require Import List NArith ZArith Bool Lia Permutation Arith.
 From XotV Require Import Model.Base Model.Zipper Model.Access Model.Store Model.Manip Model.Unpretty Model.Interning
                          Model.Fullname Model.Scope Model.NsTools Model.Hist Spec.DocOrder Spec.Paths Spec.Shape
-                         Proofs.PermTac Proofs.StoreProofs Proofs.ForestFacts Proofs.ShapeProofs Proofs.InvProofs
+                         Proofs.PermTac Proofs.StoreProofs Proofs.ForestFacts Proofs.ShapeProofs Proofs.KeysProofs Proofs.InvProofs
                          Proofs.InvSteps Proofs.InvOps Proofs.InvHist.
 Import ListNotations.
 Open Scope N_scope.
@@ -17,7 +17,7 @@ Definition keeps_normal (st st' : xstate) : Prop :=
 Lemma map_insert_keeps st k e newv : Good st -> keeps_normal st (map_insert st k e newv).
 Proof.
   intros G x v Hin Hn. unfold map_insert. destruct (map_get_node st k e (key_of newv)) as [n|] eqn:Eg.
-  - destruct (map_get_node_facts _ _ _ _ _ G Eg) as (w & Hw & Hc). cbn [store with_store].
+  - destruct (map_get_node_facts _ _ _ _ _ G Eg) as (w & Hw & Hc & _). cbn [store with_store].
     apply nodes_fset_val_other; [exact Hin|]. intros ->. apply val_nodes in Hw.
     rewrite (nodes_functional _ _ _ _ (Good_nodup _ G) Hin Hw) in Hn. destruct w; destruct k; discriminate.
   - destruct (new_node st newv) as [st1 n] eqn:En. destruct (Ext_new_node _ _ _ _ G En) as (_ & _ & Hst & _).
@@ -196,17 +196,34 @@ Section Rmws.
       destruct v; cbn [kids_ok] in *; try (destruct k; [reflexivity|discriminate H2]); apply IHk; exact H2.
   Qed.
 
+  Lemma keys_strip f : forall p s, keys f = true ->
+    keys (strip space p s f) = true /\ forall c, sub (level_keys c (strip space p s f)) (level_keys c f).
+  Proof.
+    induction f as [|i v k IHk r IHr]; intros p s; cbn [strip]; [intros _; split; [reflexivity|intros; constructor]|].
+    rewrite keys_cons. intros H. apply andb_true_iff in H as [H H3]. apply andb_true_iff in H as [H1 H2].
+    destruct (IHr p s H3) as [Hr1 Hr2].
+    destruct (insignificant p s v).
+    - split; [exact Hr1|]. intros c. cbn [level_keys]. destruct (vcat_eqb _ _); [apply sub_skip|]; apply Hr2.
+    - destruct (IHk (space_below space p k) (level_sig k) H2) as [Hk1 Hk2]. split.
+      + rewrite keys_cons, Hk1, Hr1, !andb_true_r. apply (level_ok_sub _ k); [intros c _; apply Hk2|exact H1].
+      + intros c. cbn [level_keys]. destruct (vcat_eqb _ _); [apply sub_keep|]; apply Hr2.
+  Qed.
+
   Lemma Ext_rmws st n st' : Good st -> rmws space st n = Some st' -> Ext st st'.
   Proof.
     intros G. unfold rmws. destruct (cur st n) as [z|] eqn:Hc; [|discriminate].
     pose proof (locate_find _ _ _ Hc) as Hf. pose proof (Good_nodup _ G) as Hnd.
     assert (forall p s, Ext st (free_slots (with_store st (fset_kids n (strip space p s (z_kids z)) (store st))) (stripped space p s (z_kids z)))) as Hgen.
-    { intros p s. rewrite fset_kids_fmap. apply Ext_free; [exact G| | |].
+    { intros p s. rewrite fset_kids_fmap. apply Ext_free; [exact G| | | |].
       - eapply ids_fmap_kids_replace; [exact Hnd|exact Hf|apply strip_ids].
-      - apply shape_fmap_kids; [apply G|]. intros v kk Hin _.
+      - apply shape_fmap_kids; [apply Good_shape; exact G|]. intros v kk Hin _.
         assert (v = z_val z) as -> by (eapply nodes_functional; [exact Hnd|exact Hin|eapply find_in_nodes; exact Hf]).
-        pose proof (shape_find _ _ _ _ _ _ (proj2 G) Hf) as Hk.
+        pose proof (shape_find _ _ _ _ _ _ (Good_shape _ G) Hf) as Hk.
         destruct (z_val z); cbn [kids_ok] in *; try (destruct (z_kids z); [reflexivity|discriminate Hk]); apply shape_strip; exact Hk.
+      - apply keys_fmap_kids; [apply Good_keys; exact G|]. intros v kk _ _.
+        pose proof (keys_find _ _ _ _ (Good_keys _ G) Hf) as Kt. unfold keys_tree in *. apply andb_true_iff in Kt as [K1 K2].
+        destruct (keys_strip (z_kids z) p s K2) as [S1 S2]. rewrite S1, andb_true_r.
+        apply (level_ok_sub _ (z_kids z)); [intros c _; apply S2|exact K1].
       - apply vsub_incl. eapply nodes_fmap_kids_replace_incl; [exact Hnd|exact Hf|apply strip_nodes_incl]. }
     destruct (z_val z); try (intros H; inversion H; subst; apply Hgen).
     destruct (insignificant _ _ _); intros H; inversion H; subst; [apply Ext_m_remove|apply Ext_refl]; exact G.
